@@ -89,6 +89,8 @@ thread_local! {
     static LOG: RefCell<Vec<Transition>> = const { RefCell::new(Vec::new()) };
     static LOG_ON: Cell<bool> = const { Cell::new(true) };
     static MAX_DEPTH: Cell<u32> = const { Cell::new(0) };
+    static SIGNALS: Cell<u64> = const { Cell::new(0) };
+    static SIGNAL_BUDGET: Cell<u64> = const { Cell::new(u64::MAX) };
 }
 
 pub fn log_transition(t: Transition) {
@@ -112,4 +114,25 @@ pub fn note_depth(d: u32) {
 }
 pub fn take_max_depth() -> u32 {
     MAX_DEPTH.with(|m| m.replace(0))
+}
+
+/// Count one handled signal. With a budget set (never by default) the monitor
+/// stops a run-away call by panicking, so that "does not terminate in a bounded
+/// number of logical steps" is observable without a wall clock.
+pub fn note_signal() {
+    let n = SIGNALS.with(|c| {
+        c.set(c.get() + 1);
+        c.get()
+    });
+    if n > SIGNAL_BUDGET.with(|b| b.get()) {
+        SIGNALS.with(|c| c.set(0));
+        panic!("verif: signal budget exceeded");
+    }
+}
+/// Number of signals handled since the last call of this function.
+pub fn take_signal_count() -> u64 {
+    SIGNALS.with(|c| c.replace(0))
+}
+pub fn set_signal_budget(b: Option<u64>) {
+    SIGNAL_BUDGET.with(|x| x.set(b.unwrap_or(u64::MAX)));
 }
